@@ -300,7 +300,13 @@ def run(ctx):
         # "not factorable" branches
         if mode == "merged_scaled":
             # merge the symmetry partners (fraction-aware simplification)
-            inp = reduce_expr(E0.copy())
+            try:
+                with EQ.time_limit(120 if quick else 300):
+                    inp = reduce_expr(E0.copy())
+            except EQ.TimeLimit:
+                ctx.dist["reduce:time-limit"] = \
+                    ctx.dist.get("reduce:time-limit", 0) + 1
+                continue
         tl = list(Add.make_args(inp.sympy))
         if mode == "merged_scaled" and len(tl) > 1:
             # scale a term with the largest prefactor (a merged one)
@@ -325,7 +331,14 @@ def run(ctx):
         max_order = rng.choice([None, None, 2, 3])
         t0 = time.time()
         try:
-            got = fact(inp.copy(), types_or_names=sel, max_order=max_order)
+            with EQ.time_limit(120 if quick else 300):
+                got = fact(inp.copy(), types_or_names=sel,
+                           max_order=max_order)
+        except EQ.TimeLimit:
+            # run time is not part of the property: counted, not a violation
+            ctx.dist["factor:time-limit"] = \
+                ctx.dist.get("factor:time-limit", 0) + 1
+            continue
         except Exception as ex:
             ctx.violation(f"C11:factor-exception:{name}:{mode}",
                           f"factor_intermediates raised {ex!r}",
@@ -376,9 +389,13 @@ def run(ctx):
                               {"expr": "t2_1 * W * w * (w1 B1 + w2 B2)/B2"},
                               False)
             try:
-                red = reduce_expr(E0.copy())
+                with EQ.time_limit(120 if quick else 300):
+                    red = reduce_expr(E0.copy())
                 add(f"reduce:{name}", red, E0.copy().expand_intermediates(),
                     tg, sample={"expr": str(E0.sympy)[:200]})
+            except EQ.TimeLimit:
+                ctx.dist["reduce:time-limit"] = \
+                    ctx.dist.get("reduce:time-limit", 0) + 1
             except Exception as ex:
                 ctx.violation(f"C11:reduce-exception:{name}",
                               f"reduce_expr raised {ex!r}",
